@@ -204,6 +204,34 @@ func verifLemmaMaxBodyTight(c *channelInstance, m *Message, chunkSize int, chunk
 //@   ensures [C18:unlocked] !held(&s.handlersMu)
 
 // ---------------------------------------------------------------------------
+// C09: tampered, truncated or forged chunks
+// ---------------------------------------------------------------------------
+
+// a decoded chunk header: exactly one of the two security headers is present
+//@ pred chunkHdrOK(m *MessageChunk) := m != nil && m.MessageHeader != nil &&
+//@     (m.MessageHeader.AsymmetricSecurityHeader != nil || m.MessageHeader.SymmetricSecurityHeader != nil)
+
+//@ func (*channelInstance).verifyAndDecrypt
+//@   props C09 C13 C20
+//@   requires c != nil && c.sc != nil && c.sc.cfg != nil && c.algo != nil && chunkHdrOK(m)
+//@   requires 0 <= c.algo.remoteSignatureLength && c.algo.remoteSignatureLength <= 65536 &&
+//@            0 <= c.algo.signatureLength && c.algo.signatureLength <= 65536
+//@   let mode = c.sc.cfg.SecurityMode
+//@   let asym = m.MessageHeader.AsymmetricSecurityHeader != nil
+//@   let raw = mode == ua.MessageSecurityModeNone && (c.sc.cfg.SecurityPolicyURI == ua.SecurityPolicyURINone || !asym)
+//@   let hdr = ite(asym, 12 + m.MessageHeader.AsymmetricSecurityHeader.Len(), 16)
+//@   requires [from-decode] len(r) >= hdr
+//@   assigns c.algo.decrypt, c.algo.verifySignature, uapolicy.sigCheckedKey(r), uapolicy.sigCheckedLen(r)
+//@   ensures [C09:raw] raw ==> err == nil && sameslice(result0, m.Data)
+//@   ensures [C09:verified] !raw && err == nil ==> fresh(result0) &&
+//@           uapolicy.sigCheckedKey(result0) == uapolicy.remoteKeyOf(c.algo)
+//@   ensures [C09:covers] !raw && err == nil && !asym && mode != ua.MessageSecurityModeSignAndEncrypt ==>
+//@           uapolicy.sigCheckedLen(result0) == len(r) - c.algo.remoteSignatureLength
+//@   ensures [C09:error-nothing] err != nil ==> len(result0) == 0
+//@   ensures [C20:alias] err == nil ==> sameslice(result0, m.Data) || fresh(result0)
+//@   canary ensures [C09:canary-always-verified] err == nil ==> uapolicy.sigCheckedKey(result0) == uapolicy.remoteKeyOf(c.algo)
+
+// ---------------------------------------------------------------------------
 // C22: the server's session signature
 // ---------------------------------------------------------------------------
 
